@@ -32,15 +32,19 @@ RULE = (
     "distinct = SHA-1 of the case"
 )
 ASSUMPTIONS = [
-    "finite total weight by construction; rtol 1e-8 on conditionals (1e-6 on long contexts)",
+    "finite total weight by construction; rtol 1e-6 on conditionals and chain-rule values (the library discards fixed-point increments below 1e-12 one at a time, which adds up to 1e-9..1e-8 on the normal-form prefix grammars)",
     "the plain (non-rescaled) Earley parser is not required to survive underflow",
     "long contexts are warmed in steps of 200 tokens so that C04 does not depend on the cold-cache behaviour examined by C05",
 ]
-TOL = 1e-8
+# The library's fixed points (CFG.agenda) discard every pending increment smaller than 1e-12
+# instead of applying it; on the normal-form prefix grammars behind the language models (hundreds of
+# nonterminals) the discarded increments add up to 1e-9 .. 1e-8 relative, depending on the set order.
+# That is the "convergence tolerance" the statements allow; genuine losses are >= 1e-4.
+TOL = 1e-6
 
 
 def examples(tier):
-    return 800 if tier == "quick" else 8000
+    return 600 if tier == "quick" else 8000
 
 
 @st.composite
@@ -153,7 +157,10 @@ def _short(case, ctx):
                 ctx.nontrivial = True
             tot = sum(p.values())
             ctx.check(name + "|sum", close(tot, 1.0), lambda: f"{name}: p_next({c}) sums to {tot}")
-            bad = [(t, p[t], want[t]) for t in want if not close(p[t], want[t])]
+            # a conditional is a ratio of totals that the library's fixed points deliver with an
+            # absolute error of about 1e-12: relative to a small prefix weight that is 1e-11 / PW(c)
+            tolc = TOL + 1e-11 / max(PW(c), 1e-300)
+            bad = [(t, p[t], want[t]) for t in want if not close(p[t], want[t], tolc)]
             extra = [t for t in p if t not in want]
             ctx.check(name + "|cond", not bad and not extra, lambda: f"{name}: p_next({c}): (token, have, want) {bad[:3]} extra {extra}")
             if bad:
@@ -164,7 +171,7 @@ def _short(case, ctx):
                 have = ctx.call(name + ".call", lm, x + (EOS,))
                 if isinstance(have, LibRaised):
                     break
-                ctx.check(name + "|chain", close(have, ins(x) / Z), lambda: f"{name}: lm({x}+EOS) = {have}, weight/total = {ins(x) / Z}")
+                ctx.check(name + "|chain", close(have, ins(x) / Z, TOL + 1e-11 / max(Z, 1e-300)), lambda: f"{name}: lm({x}+EOS) = {have}, weight/total = {ins(x) / Z}")
 
     # un-normalised next-token weights equal the parser's weight of the extended context
     e = ctx.call("add_EOS", add_EOS, cfg)
